@@ -476,6 +476,9 @@ func init() {
 		if err != nil {
 			return true
 		}
+		if rw, err := receiverWriteFacts("/repo"); err == nil {
+			facts = append(facts, rw...)
+		}
 		for _, x := range facts {
 			if strings.HasPrefix(x, f.Example["site"]+":") {
 				return true
